@@ -22,7 +22,8 @@ def count_nodes():
 @pipeline
 def c20(ctx: Ctx):
     ctx.assumptions = [
-        "TLC; spec/Robust.tla spans the space (29 mutation operators x every node of a 207-node base document using every object kind, x entry point x external switch x JSON/YAML); the oracle is the outcome alphabet",
+        "TLC; spec/Robust.tla spans the space (61 tree operators x every node of a 207-node base document using every object kind, x entry point x external switch x JSON/YAML; 101 lexical operators -- YAML / JSON / encoding level -- on a seeded slice of the nodes); the oracle is the outcome alphabet",
+        "spec/RefGraph.tla spans the adversarial reference graphs: every lasso of the object-kind graph up to the bound (alias cycles of every kind, recursion through every site, header -> media type -> encoding -> header, callback -> path item -> operation -> callback; closing by component / deep pointer / alias hop / across a second file), each pushed through every validator / serialiser / resolver / internaliser entry point of a loaded document",
         "the byte-string quantifier is sampled, not exhausted: structure-level mutations, truncation at node boundaries, seeded byte noise",
         "harness/c20.go applies the mutations and runs load -> validate -> marshal JSON/YAML -> internalize -> validate under the crash-safe runner (panic recovered per stage, 5 s watchdog, process death = crash)",
     ]
@@ -51,7 +52,7 @@ def c20(ctx: Ctx):
             n = len(keep)
         log("[gen] %d cases over %d nodes" % (n, nn))
         # reference graphs (spec/RefGraph.tla): every lasso of the kind graph up to the bound
-        gmax, gschema, gofat, gtier = (3, 1, 1, "ofat") if ctx.tier == "quick" else (4, 2, 2, "ofat")
+        gmax, gschema, gofat, gtier = (3, 1, 1, "ofat") if ctx.tier == "quick" else (4, 1, 1, "ofat")
         gcfg = ("SPECIFICATION GSpec\nCONSTANTS GMaxSteps = %d\n GSites = {\"properties\", \"items\", \"additionalProperties\", \"allOf\", \"anyOf\", \"oneOf\", \"not\"}\n"
                 " GSplits = {0, 1, 2, 3, 4, 5}\n GAliasHop = {TRUE, FALSE}\n GMaxSchemaSteps = %d\n GTier = \"%s\"\n GOfatSteps = %d\nINVARIANT GEmit\nCHECK_DEADLOCK FALSE\n"
                 % (gmax, gschema, gtier, gofat))
@@ -88,6 +89,7 @@ def c20(ctx: Ctx):
             ctx.samples.append(dict(c=o["c"], obs=o["obs"]))
     ctx.extra["load_outcomes"] = outcomes
     ctx.extra["graph_load_outcomes"] = goutcomes
-    ctx.rule = ("every mutation operator at every node of the base document (quick: single mutations; thorough: + pairs on a seeded node slice, 12% sampled) "
+    ctx.rule = ("every closed walk (lasso) of the object-kind graph of <= 3 (quick) / 4 (thorough) steps, the default run configuration for all and one-factor-at-a-time variations (split over two files at every position, alias hop, unused, entry point, switch, YAML) for the short ones; "
+                "every mutation operator at every node of the base document (quick: single mutations; thorough: + pairs on a seeded node slice, 12% sampled) "
                 "x entry point (all three for JSON with external refs allowed; data entry also in YAML and with the switch off); every case is distinct")
     ctx.validate("Trace_C20", "Trace_C20.cfg", logp, chunk_lines=4000)
